@@ -341,8 +341,8 @@ func (in *Interp) mergeable(fn *ssa.Function) bool {
 	if ok && in.lookupNative(fn) != nil {
 		ok = false
 	}
-	if ok && fn.Pkg != nil && fn.Pkg.Pkg.Path() == in.P.vvPath {
-		ok = false
+	if pp := fnPkgPath(fn); ok && (pp == in.P.vvPath || pp == in.P.modPath+"/cmd") {
+		ok = false // harness vocabulary; CLI orchestration (run, runEcosystem, sort, ...) forks at the top level
 	}
 	code := 0
 	if ok {
@@ -1477,4 +1477,18 @@ func (in *Interp) mapDelete(m *Map, key Value) {
 		ne = append(ne, m.Ents[k+1:]...)
 		m.Ents = ne
 	}
+}
+
+// fnPkgPath: package path of a function, also for instantiations of generic functions.
+func fnPkgPath(fn *ssa.Function) string {
+	if fn.Pkg != nil {
+		return fn.Pkg.Pkg.Path()
+	}
+	if o := fn.Origin(); o != nil && o.Pkg != nil {
+		return o.Pkg.Pkg.Path()
+	}
+	if fn.Object() != nil && fn.Object().Pkg() != nil {
+		return fn.Object().Pkg().Path()
+	}
+	return ""
 }
